@@ -283,6 +283,11 @@ class C17(Prop):
         for region, cnt in (('deadlock', 45), ('block', 30), ('sched_block', 15)):
             for i in range(cnt * (1 if tier == 'quick' else self.thorough_mult)):
                 js.append({'region': region, 'gseed': seed * 100003 + 50000 + i, 'size': 'quick', 'tix': 6 if i % 3 else 5})
+        # NodeClassMatrix is the only tracker that sees class changes: extra runs where classes change (after service,
+        # while waiting, with reneging)
+        for region, cnt in (('renege_dyn', 28), ('dyn', 14), ('all', 14)):
+            for i in range(cnt * (1 if tier == 'quick' else self.thorough_mult)):
+                js.append({'region': region, 'gseed': seed * 100003 + 60000 + i, 'size': 'quick', 'tix': 4})
         m = 1 if tier == 'quick' else 7
         for i in range(260 * m):
             js.append({'custom': 'sp_synth', 'dseed': seed * 7919 + i})
